@@ -58,6 +58,14 @@ func genShareList(t *rapid.T, n int, subset []int) []int {
 			list = append(list, idx)
 		}
 	}
+	// further copies of shares anywhere in the list: a copy need not sit next to its original
+	if len(subset) > 0 {
+		for k := rapid.IntRange(0, 3).Draw(t, "farDups"); k > 1; k-- {
+			idx := subset[uniformInt(t, 0, len(subset)-1, "farDup")]
+			pos := uniformInt(t, 0, len(list), "farDupPos")
+			list = append(list[:pos], append([]int{idx}, list[pos:]...)...)
+		}
+	}
 	if rapid.IntRange(0, 3).Draw(t, "tailnil") == 0 {
 		list = append(list, -1)
 	}
